@@ -176,6 +176,8 @@ def build_ops():
        lambda st: (with_fields(st, rm(st[0], "v")), ("ok", val(st[0], "v"))) if has(st[0], "v") else (st, ("exc", "KeyError")))
     op("sh.pop('w', 'D')", "pop",
        lambda st: (with_fields(st, rm(st[0], "w")), ("ok", val(st[0], "w"))) if has(st[0], "w") else (st, ("ok", "D")))
+    op("sh.pop('v', 1)", "pop",      # the default may be the very object stored in the field
+       lambda st: (with_fields(st, rm(st[0], "v")), ("ok", val(st[0], "v"))) if has(st[0], "v") else (st, ("ok", 1)))
     op("sh.popitem()", "popitem",
        lambda st: (with_fields(st, st[0][:-1]), ("ok", st[0][-1])) if st[0] else (st, ("exc", "KeyError")))
     op("sh.clear()", "clear", lambda st: (with_fields(st, ()), OK))
